@@ -298,7 +298,7 @@ class Dimension:
         name: Optional[str] = None,
         symbol: Optional[str] = None,
     ) -> "Dimension":
-        key = exponents
+        key = cls._padded(exponents)
         # the name registry is read before the intern table: a dimension is interned
         # before it is named, so whatever holds the name is then also found by key,
         # even while another thread is in the middle of the same declaration
@@ -335,13 +335,22 @@ class Dimension:
                 self.symbol = symbol
             return
 
-        self.exponents = exponents
+        self.exponents = self._padded(exponents)
         self.name = name
         self.symbol = symbol
         self._initialized = True
 
         if name:
             self._by_name[name] = self
+
+    @classmethod
+    def _padded(cls, exponents: Tuple[int, ...]) -> Tuple[int, ...]:
+        """Exponents that were written down (pickled, stored as JSON) before further
+        fundamental dimensions were defined lack the trailing zeros for them"""
+        if not cls._fundamental:
+            return exponents
+        missing = len(cls._fundamental[0].exponents) - len(exponents)
+        return tuple(exponents) + (0,) * missing if missing > 0 else exponents
 
     @classmethod
     def fundamental(cls) -> Iterable["Dimension"]:
